@@ -342,7 +342,19 @@ func runCheck(prop, tier string) int {
 	if len(vios) > 0 {
 		dir := filepath.Join(g.verifDir, "replay", prop)
 		_ = os.MkdirAll(dir, 0o755)
+		// One root cause (e.g. a call that became unknown) makes every frame obligation after it fail:
+		// report at most two frame (assigns) obligations per function, count the rest.
+		framePerFn := map[string]int{}
+		suppressed := 0
 		for _, v := range vios {
+			if i := strings.Index(v.name, "/assigns#"); i >= 0 {
+				framePerFn[v.name[:i]]++
+				if framePerFn[v.name[:i]] > 2 {
+					suppressed++
+					nv++
+					continue
+				}
+			}
 			nv++
 			path := filepath.Join(dir, mangle(v.name)+".txt")
 			var b strings.Builder
@@ -364,6 +376,9 @@ func runCheck(prop, tier string) int {
 				fmt.Printf("VIOLATION property=%s replay=%s no-failing-input-found\n", prop, path)
 			}
 			fmt.Fprintf(os.Stderr, "  failed: %s — %s\n", v.name, v.detail)
+		}
+		if suppressed > 0 {
+			fmt.Fprintf(os.Stderr, "  (%d further failed frame obligations of the same functions are not listed separately)\n", suppressed)
 		}
 		// a failed obligation is assumed by the obligations after it, which can make canaries and
 		// covers of the same function vacuous: the violation takes precedence over those guards
